@@ -38,7 +38,24 @@ def run(facts, tr, rep):
     sites = inner_calls(facts, sb)
     rep.floor("C10.inner-call-sites", len(sites), 1)
     # store.get calls in Service::call
-    gets = [c for c in g.calls() if c.name == "get" and any(d.startswith(CRATE) for d in c.targets_def())]
+    def is_store_get(c):
+        return c.name == "get" and any(d.startswith(CRATE + "::store") for d in c.targets_def())
+    gets = [c for c in g.calls() if is_store_get(c)]
+    helper_keys = {}
+    if not gets:
+        # the lookup may live in a private helper (e.g. `self.lookup(&key)`): look through it
+        for c in g.calls():
+            node = ("call", sb.crate.name, sb.def_, c.bb)
+            hb = tr.local_sync_callee(node)
+            if hb is None or hb.crate.name != CRATE:
+                continue
+            hg = [x for x in graph(hb).calls() if is_store_get(x)]
+            rets = tr.helper_returns(hb)
+            if hg and rets and all(peel(r)[0] == "call" and tr.call_of(peel(r)).bb in [x.bb for x in hg] for r in rets):
+                gets.append(c)
+                with tr.bound(hb, node):
+                    helper_keys[c.bb] = peel(tr.expand(tr.operand(hb, hg[0].args[1], hg[0].loc), upvars=True))
+                rep.saw(hb)
     rep.floor("C10.store-get-sites", len(gets), 1)
     GV = [("call", sb.crate.name, sb.def_, c.bb) for c in gets]
     for (b, c) in sites:
@@ -69,7 +86,9 @@ def run(facts, tr, rep):
     # ---------------------------------------------------------------- STORE-ON-OK / KEY
     key_nodes = []
     for c in gets:
-        k = peel(tr.expand(tr.operand(sb, c.args[1], c.loc)))
+        k = helper_keys.get(c.bb)
+        if k is None:
+            k = peel(tr.expand(tr.operand(sb, c.args[1], c.loc)))
         key_nodes.append((c, k))
     ins_sites = []
     for ch in descendants(facts, sb):
@@ -173,8 +192,17 @@ def run(facts, tr, rep):
         for (i, j, node) in ret_assigns(tr, e0):
             for lf in leaves(node):
                 cm = normalise_cmp(tr, lf)
-                if cm and cm[0] in ("Gt", "Ge") and calls_in(tr, cm[1], lambda x: x.name == "elapsed") and mentions_field(tr, cm[1], "inserted_at"):
-                    ok = True
+                if cm is None:
+                    continue
+                op, x, y = cm
+                if op in ("Lt", "Le"):
+                    op, x, y = {"Lt": "Gt", "Le": "Ge"}[op], y, x
+                el = calls_in(tr, x, lambda c: c.name == "elapsed")
+                if op in ("Gt", "Ge") and el:
+                    recv = peel(tr.expand(tr.operand(el[0].g.b, el[0].args[0], el[0].loc)))
+                    ttl_side = any(n[0] == "param" for n in tr.walk(y, limit=30))
+                    if recv[0] == "field" and peel(recv[1])[0] == "param" and ttl_side:
+                        ok = True
         rep.ob("C10.EXPIRY", skey(e0, "definition"), ok, "%s:%d" % (e0.span["file"], e0.span["line"]),
                "is_expired is inserted_at.elapsed() > ttl" if ok else "is_expired is not inserted_at.elapsed() > ttl")
     # ---------------------------------------------------------------- CAPACITY / COHERENT
@@ -198,13 +226,22 @@ def run(facts, tr, rep):
         rep.saw(ins)
         gi = graph(ins)
 
-        def field_calls(body, names):
+        def field_calls(body, names, _depth=0):
             out = []
             for c in graph(body).calls():
                 if c.name in names and c.args:
                     recv = peel(tr.expand(tr.operand(body, c.args[0], c.loc), upvars=True))
                     if recv[0] == "field" and recv[2] in containers:
                         out.append((c, recv[2]))
+            # local helper functions called from this body (e.g. an extracted `evict_oldest`): their container
+            # operations count at the call site
+            if _depth < 2:
+                for c in graph(body).calls():
+                    for d in c.targets_def():
+                        hb = facts.bodies.get(d)
+                        if hb is not None and hb.crate.name == CRATE and hb.kind == "fn" and hb is not body and hb.name not in items:
+                            for (c2, f2) in field_calls(hb, names, _depth + 1):
+                                out.append((_AtBlock(c2 if not isinstance(c2, _AtBlock) else c2.c, c.bb), f2))
             for ch in descendants(facts, body):
                 if ch is body:
                     continue
